@@ -50,6 +50,88 @@ fn main() {
         jobs.push(Job { family: "fanout".into(), pattern: pat.into(), width: 1 });
         jobs.push(Job { family: "fanin".into(), pattern: pat.into(), width: 1 });
     }
+    let only: Option<usize> = kv.get("only").map(|x| x.parse().unwrap());
+    if only.is_none() && get("isolate", "1") == "1" {
+        // parent: every family x pattern group runs in a child process of its own, so that a crash
+        // of the code under test (a stack overflow aborts the whole process) is data - one `big`
+        // line that no check accepts - instead of the end of the run
+        let exe = std::env::current_exe().unwrap();
+        let args: Vec<String> = std::env::args().skip(1).filter(|a| !a.starts_with("tag=") && !a.starts_with("threads=")).collect();
+        let njobs = jobs.len();
+        let jobs = Arc::new(jobs);
+        let next = Arc::new(Mutex::new(0usize));
+        let agg = Arc::new(Mutex::new((serde_json::Map::new(), Vec::<String>::new(), 0usize)));
+        let mut handles = vec![];
+        for _ in 0..threads {
+            let (exe, args, next, agg, jobs, out, tag, sizes) =
+                (exe.clone(), args.clone(), next.clone(), agg.clone(), jobs.clone(), out.clone(), tag.clone(), sizes.clone());
+            handles.push(std::thread::spawn(move || loop {
+                let i = {
+                    let mut g = next.lock().unwrap();
+                    let i = *g;
+                    *g += 1;
+                    i
+                };
+                if i >= njobs {
+                    break;
+                }
+                let o = std::process::Command::new(&exe)
+                    .args(&args)
+                    .arg(format!("only={}", i))
+                    .arg(format!("tag={}-j{:02}", tag, i))
+                    .arg("threads=1")
+                    .output()
+                    .expect("spawn child");
+                let text = String::from_utf8_lossy(&o.stdout).to_string();
+                let summary = text.lines().rev().find(|l| l.starts_with('{')).and_then(|l| serde_json::from_str::<serde_json::Value>(l).ok());
+                let mut a = agg.lock().unwrap();
+                match (o.status.success(), summary) {
+                    (true, Some(v)) => {
+                        for k in ["ctxs", "states", "transitions", "ends", "big_evaluations", "lines"] {
+                            let cur = a.0.get(k).and_then(|x| x.as_u64()).unwrap_or(0);
+                            a.0.insert(k.to_string(), json!(cur + v[k].as_u64().unwrap_or(0)));
+                        }
+                        for f in v["files"].as_array().cloned().unwrap_or_default() {
+                            a.1.push(f.as_str().unwrap().to_string());
+                        }
+                    }
+                    _ => {
+                        let err = String::from_utf8_lossy(&o.stderr);
+                        let msg: String = err.lines().rev().take(3).collect::<Vec<_>>().join(" | ").chars().take(200).collect();
+                        let jb = &jobs[i];
+                        let line = json!({
+                            "t": "big", "family": jb.family, "pattern": jb.pattern, "n": sizes.iter().max(), "jobs": 1,
+                            "shape": "crash", "pos": 1, "calls": 0,
+                            "bad": [{"call": "process", "job": "", "res": "crash", "msg": format!("{:?} {}", o.status, msg)}],
+                            "maxdepth": 0, "maxwaves": 0, "fin": false, "dead": true, "stalled": false, "aborted": false,
+                            "nh": "dead", "nhmsg": "", "started": 0, "startedA": 0, "startedO": 0, "startedE": 0,
+                            "succeeded": 0, "faildel": 0, "failed": 0, "upf": 0, "ready": 0, "running": 0, "outs": 0,
+                            "histkeys": 0, "nA": 0, "nO": 0, "nE": 0});
+                        let name = format!("{}/{}-j{:02}-crash.ndjson", out, tag, i);
+                        std::fs::write(&name, format!("{}\n", line)).unwrap();
+                        a.1.push(name);
+                        a.2 += 1;
+                        let cur = a.0.get("lines").and_then(|x| x.as_u64()).unwrap_or(0);
+                        a.0.insert("lines".to_string(), json!(cur + 1));
+                    }
+                }
+            }));
+        }
+        for h in handles {
+            h.join().unwrap();
+        }
+        let a = agg.lock().unwrap();
+        let mut files = a.1.clone();
+        files.sort();
+        let g = |k: &str| a.0.get(k).and_then(|x| x.as_u64()).unwrap_or(0);
+        println!(
+            "{}",
+            json!({"family": "big", "universes": njobs * sizes.len(), "ctxs": g("ctxs"), "states": g("states"),
+                   "transitions": g("transitions"), "ends": g("ends"), "truncated": 0, "misuse_calls": 0,
+                   "big_evaluations": g("big_evaluations"), "crashed_groups": a.2, "lines": g("lines"), "files": files, "sizes": sizes})
+        );
+        return;
+    }
     let jobs = Arc::new(jobs);
     let next = Arc::new(Mutex::new(0usize));
     let results = Arc::new(Mutex::new((0usize, vec![], Stats::default())));
@@ -75,6 +157,11 @@ fn main() {
                 };
                 if i >= jobs.len() {
                     break;
+                }
+                if let Some(o) = only {
+                    if i != o {
+                        continue;
+                    }
                 }
                 let jb = &jobs[i];
                 // one group per cascade shape: sizes ascending, written consecutively
